@@ -246,6 +246,36 @@ def _shard(shard, seed, tier, n_cases):
     return rep
 
 
+def _shipped_shard(shard, seed, tier, names):
+    rep = Reporter(PID, tier, RULE)
+    name = names[shard]
+    with open(sources.shipped_path(name)) as f:
+        y = yaml.safe_load(f)
+    run_base(y, "shipped:" + name, rep, pairs=60 if tier == "thorough" else 10)
+    return rep
+
+
+def measure_loader_coverage(rep):
+    """statement coverage of loader.py reached by the mutants of the small shipped bases (measured, thorough tier)"""
+    loader_path = os.path.join(common.REPO, "nasim", "scenarios", "loader.py")
+    try:
+        import coverage
+        cov = coverage.Coverage(include=[loader_path], branch=True, data_file=None)
+        cov.start()
+        scratch = Reporter(PID, "thorough", RULE)
+        for name in ("tiny", "tiny-small", "small-honeypot"):
+            with open(sources.shipped_path(name)) as f:
+                run_base(yaml.safe_load(f), "coverage:" + name, scratch, record=False)
+        cov.stop()
+        _, statements, _, missing, _ = cov.analysis2(loader_path)
+        rep.extra["loader_statement_coverage"] = (
+            f"{len(statements) - len(missing)}/{len(statements)} statements of nasim/scenarios/loader.py executed by the "
+            f"mutants of tiny, tiny-small, small-honeypot (lines never executed: {missing[:30]}; lines 1-66 are module-level "
+            "constants imported before the measurement starts)")
+    except Exception as e:
+        rep.extra["loader_statement_coverage"] = f"not measured: {e}"
+
+
 def main(tier, replay=None):
     rep = Reporter(PID, tier, RULE, level="fault_enumeration", assumptions=[
         "only rule violations named in the property statement are in the catalogue; any exception type counts as rejection",
@@ -259,10 +289,11 @@ def main(tier, replay=None):
             print(f"VIOLATION property={PID} replay={replay}")
             return 1
         return 0
-    for name in sources.shipped_names():
-        with open(sources.shipped_path(name)) as f:
-            y = yaml.safe_load(f)
-        run_base(y, "shipped:" + name, rep, pairs=60 if tier == "thorough" else 10)
+    names = sources.shipped_names()
+    for part in engine.run_shards(_shipped_shard, len(names), common.verif_seed(), tier=tier, names=names):
+        rep.merge(part)
+    if tier == "thorough":
+        measure_loader_coverage(rep)
     nshards = 16 if tier == "thorough" else 8
     total = 16 * 40 if tier == "thorough" else 64
     for part in engine.run_shards(_shard, nshards, common.verif_seed(), tier=tier, n_cases=total // nshards):
